@@ -401,7 +401,15 @@ fn monitor_assign(rs: &[Rep], out: &Out, ex: &Expect, rep: &mut Report, line: &s
         }
         Out::Err(e) => {
             if ex.valid_tree {
-                rep.fail(if ex.wrap { "c17/port-time-wrap" } else { "c17/valid-tree-error" }, &format!("valid tree rejected: {e}"), line);
+                // a wrongly chosen (full) junction now yields Err(Topology) instead of a panic: same root cause
+                let key = if ex.wrap {
+                    "c17/port-time-wrap"
+                } else if ex.nested {
+                    "c17/nested-junction-wrong-parent"
+                } else {
+                    "c17/valid-tree-error"
+                };
+                rep.fail(key, &format!("valid tree rejected: {e}"), line);
             }
         }
         Out::Panic(class, msg) => {
@@ -859,7 +867,7 @@ pub fn run(tier: &str, seed: u64, rep: &mut Report) {
     tree_case(&chain_of(&[2, 0, 2], 40, 100, 7), 1000, Some(5000), &mut net, rep);
     // witness of c17/port-time-wrap: the first device's port 0 latch is 0xFFFF_FFF0, its port 3 latch wraps
     tree_case(&chain_of(&[2, 2], 40, 100, 0xFFFF_FFF0 - 1000), 1000, None, &mut net, rep);
-    // witness of c17/nested-junction-*: W panics, and without W, Z gets parent Y
+    // witness of c17/nested-junction-wrong-parent: with W the valid tree is rejected (a panic before the fix), without W, Z gets parent Y
     tree_case(&nested_witness(), 1000, Some(5000), &mut net, rep);
     {
         let mut t = nested_witness();
@@ -870,7 +878,7 @@ pub fn run(tier: &str, seed: u64, rep: &mut Report) {
     // witnesses of c17/offset-i64-overflow: receive time 2^63 (negate), and 2^63 + 1 with a large master time (add)
     run_dc_case(&[Rep { active: [true, false, false, false], dc: 2, times: [5, 0, 0, 0], rx: 1 << 63 }], 5, &none, None, &mut net, rep);
     run_dc_case(&[Rep { active: [true, false, false, false], dc: 2, times: [5, 0, 0, 0], rx: (1 << 63) + 1 }], (1 << 63) - 1, &none, None, &mut net, rep);
-    // inconsistent reports: no open port at all (first / middle / last, DC or not), fork followed by four line ends,
+    // inconsistent reports (former panic witnesses, now errors): no open port at all (first / middle / last, DC or not), fork followed by four line ends,
     // line end first then anything (Err(Topology))
     let leaf = |dc: u8| Rep { active: [true, false, false, false], dc, times: [100, 0, 0, 0], rx: 100 };
     let closed = |dc: u8| Rep { active: [false; 4], dc, times: [0; 4], rx: 0 };
